@@ -146,6 +146,7 @@ type board struct {
 	wsFail        atomic.Int64      // websocket publishes answered with an error
 	wsSeq         atomic.Int64
 	wsEvery       atomic.Int64 // every n-th publish fails (0: never)
+	noHiccups     bool         // max_tries = 0 workers: no webhook but the failing one ever fails
 	flaky         atomic.Int64 // calls of the flaky healthy webhook
 	flakyFailures atomic.Int64
 }
@@ -350,7 +351,7 @@ func (c *recClient) Call(_ map[string]string, method string, url string, body an
 	if ch == chHookFail {
 		return nil, errors.New("verif: injected webhook transport failure")
 	}
-	if ch == chHookOK2 && c.b.flaky.Add(1)%3 == 0 {
+	if ch == chHookOK2 && !c.b.noHiccups && c.b.flaky.Add(1)%3 == 0 {
 		// a healthy webhook with a hiccup now and then (never twice in a row): it must keep receiving every event
 		c.b.flakyFailures.Add(1)
 		return &http.Response{StatusCode: 500, Status: "500 Internal Server Error", Header: http.Header{}, Body: io.NopCloser(strings.NewReader("hiccup"))}, nil
@@ -489,7 +490,10 @@ func (e *env) addPair(h refmodel.Hdr) [2]rig.AddResult {
 }
 
 func newEnv(r *ev.Run, live bool, prod ...bool) (*env, error) {
-	e := &env{r: r, b: &board{beh: map[string]string{}, release: make(chan struct{})}, names: []string{"rec1", "rec2", "rec3"}}
+	e := &env{r: r, b: &board{beh: map[string]string{}, release: make(chan struct{}), noHiccups: r.Worker%4 == 3}, names: []string{"rec1", "rec2", "rec3"}}
+	if r.Worker%4 == 3 {
+		r.Count("environments_with_max_tries_zero", 1)
+	}
 	e.urls = map[string]string{chHookOK: urlHookOK, chHookFail: urlHookFail, chHookOK2: urlHookOK2, chHookOK3: urlHookOK3}
 	var target notification.WebhookTargetClient = &recClient{b: e.b}
 	if len(prod) > 0 && prod[0] {
@@ -586,7 +590,7 @@ func (e *env) startHookServers() {
 			e.b.rec.add(delivery{Channel: ch, Payload: body, Extra: q.Method})
 			switch ch {
 			case chHookOK2:
-				if e.b.flaky.Add(1)%3 == 0 {
+				if !e.b.noHiccups && e.b.flaky.Add(1)%3 == 0 {
 					e.b.flakyFailures.Add(1)
 					http.Error(w, "hiccup", http.StatusInternalServerError)
 					return
@@ -1127,6 +1131,9 @@ func body(r *ev.Run) {
 	r.Require("deliveries_"+chWSClient, 100)
 	r.Require("production_client_histories", 10)
 	r.Require("hiccups_of_a_healthy_webhook", 100)
+	if r.Workers >= 4 {
+		r.Require("environments_with_max_tries_zero", 1)
+	}
 	r.Require("webhook_connections_dropped_after_the_request_was_read", 20)
 	mb.ForbiddenHeaders()
 	var e, le *env
